@@ -23,7 +23,7 @@ PROPS["C08"] = {
                     "bin/ext 'verbatim' = the emitted object is byte-identical to what the document retains, and the independent decoder sees the payload and type given to the API",
                     "maps of >= 65534 members are built by deserializeMsgPack from a reference encoding (member-by-member construction is quadratic; thorough also builds 65535 and 65536 through the API), -O2 build without sanitizers",
                     "an Arduino String destination is only exercised for outputs without a NUL byte"],
-    "quick": [_DX_SAN, _DX_BIG, _DX_LEN4],
+    "quick": [_DX_SAN, _DX_BIG, _DX_LEN4, _DX_NODOUBLE],
     "thorough": [_DX_SAN, _DX_BIG, _DX_LEN4, _DX_FLOATS],
     "thorough_deadline": 840,
 }
